@@ -61,8 +61,13 @@ class Pipe:
                 self.res.oblige('T:translate', True)
                 try:
                     gold = json.load(open(os.path.join(VERIF, 'spec', 'golden.json')))
-                    self.res.oblige('T:signature-search-loop-shape', self.tr['summary'].get('ohbLoopHash') == gold.get('ohb_loop_hash'),
-                                    'the AST of the while loop of ObjectHeaderBase::read changed; the hand model Blf.syncLoop may no longer match')
+                    same = self.tr['summary'].get('ohbLoopHash') == gold.get('ohb_loop_hash')
+                    if self.res.pid in NONCODEC_PROPS and self.res.pid not in ('C06', 'C07'):
+                        if not same:
+                            self.res.notes.append('the AST of the signature search of ObjectHeaderBase::read changed (an obligation of the properties that parse objects, not of this one)')
+                    else:
+                        self.res.oblige('T:signature-search-loop-shape', same,
+                                        'the AST of the while loop of ObjectHeaderBase::read changed; the hand model Blf.syncLoop may no longer match')
                 except Exception as e:
                     self.res.oblige('T:signature-search-loop-shape', False, str(e))
                 for k, v in un.items():
